@@ -542,3 +542,206 @@ def db_case_term(rng, data):
                fres_table_term(fres_table(toks)), zs(data), coq_list(outcome_term(o) for o in outs),
                d.boards_term(), d.modes_term()))
     return term, outs, d
+
+
+# ---------------------------------------------------------------------------
+# mscu
+
+MS_KNOWN = ['getpos', 'getappstatus', 'getstatus', 'setpos', 'setup', 'stow', 'disable', 'clean', 'getspar',
+            'setsdatbitb16']
+MS_OTHER = ['ctime', 'stop', 'id', 'name', 'axes', 'stow_position', 'history', 'dc', 'setpos_NAK', 'dc_thread']
+MS_AXES = {0: 3, 1: 6, 2: 1, 3: 1}
+
+
+def pval_term(v):
+    if isinstance(v, bool):
+        raise TypeError(v)
+    if isinstance(v, int):
+        return '(PInt %s)' % zlit(v)
+    return '(PFlt %s)' % zlit(f64_bits(float(v)))
+
+
+class Mscu:
+    """one real mscu.System under a virtual clock; Timer replaced by the recording fake"""
+
+    def __init__(self, rng):
+        import simulators.mscu as ms
+        import simulators.mscu.servo as sv
+        self.ms, self.sv = ms, sv
+        self.rng = rng
+        self.clock = VClock(1700000000.0 + rng.randrange(0, 10 ** 6) / 8.0)
+        self.patch = dict(time=types.SimpleNamespace(time=self.clock.time, sleep=self.clock.sleep),
+                          Timer=FakeTimer)
+        self.msgs = []
+        with patched(sv, **self.patch):
+            self.system = ms.System()
+            self.t0 = sv.Servo.ctime()
+        orig = self.system._parse
+
+        def recording_parse(msg):
+            self.msgs.append(msg)
+            return orig(msg)
+        self.system._parse = recording_parse
+        self.evs = []
+        self.outs = []
+
+    def now(self):
+        with patched(self.sv, **self.patch):
+            return self.sv.Servo.ctime()
+
+    def feed(self, data):
+        with patched(self.sv, **self.patch):
+            for ch in data:
+                self.evs.append('(EByte %d)' % ord(ch))
+                self.outs.append(classify(self.system, ch))
+
+    def tick(self, dt):
+        self.clock.t += dt
+        self.evs.append('(ETick %s)' % zlit(self.now()))
+        self.outs.append(('T',))
+
+    def set_nak(self, v):
+        if v:
+            self.system.system_setpos_NAK()
+        else:
+            self.system.system_setpos_ACK()
+        self.evs.append('(ENak %s)' % blit(v))
+        self.outs.append(('T',))
+
+    def close(self):
+        with patched(self.sv, **self.patch):
+            self.system.system_stop()
+
+    def in_domain(self):
+        """every history time stamp is an int (see Model/SmcMscu.v, modelled domain)"""
+        return all(isinstance(e[0], int) and not isinstance(e[0], bool)
+                   for s in self.system.servos.values() for e in s.history.history)
+
+    def final_term(self):
+        items = []
+        for a in sorted(self.system.servos):
+            s = self.system.servos[a]
+            h = coq_list('(%s, %s)' % (zlit(e[0]), coq_list(pval_term(v) for v in e[1:])) for e in s.history.history)
+            items.append('(%s, %s)' % (h, zlit(s.dc.cab_state.value)))
+        return coq_list(items)
+
+    def tables(self):
+        ints, ints16, floats, reprs = {}, {}, {}, {}
+
+        def conv(tbl, tok, f):
+            if tok not in tbl:
+                try:
+                    tbl[tok] = f(tok)
+                except ValueError:
+                    tbl[tok] = None
+
+        for m in self.msgs:
+            body = m[1:].rstrip()
+            for part in body.split('='):
+                for piece in part.split(':'):
+                    conv(ints, piece, int)
+                for piece in part.split(','):
+                    p = piece.strip()
+                    conv(ints, p, int)
+                    conv(ints16, p, lambda t: int(t, 16))
+                    conv(floats, p, float)
+        import re
+        texts = [o[1] for o in self.outs if o[0] == 'R']
+        cands = set()
+        for t in texts:
+            cands.update(x for x in re.split(r'[,\r\n> =:]', t) if x)
+        for x in floats.values():
+            if x is not None:
+                cands.add(repr(x))
+        for c in cands:
+            try:
+                x = float(c)
+            except ValueError:
+                continue
+            if repr(x) == c:
+                reprs[f64_bits(x)] = c
+        ftbl = {k: (None if v is None else f64_bits(v)) for k, v in floats.items()}
+        return (int_table_term(ints), int_table_term(ints16), int_table_term(ftbl),
+                coq_list('(%s, %s)' % (zlit(b), zs(t)) for b, t in sorted(reprs.items())))
+
+    def case_term(self):
+        i, i16, f, r = self.tables()
+        return ('MSCase %s %s %s %s %s %s %s %s'
+                % (zlit(self.t0), i, i16, f, r, coq_list(self.evs),
+                   coq_list(outcome_term(o) for o in self.outs), self.final_term()))
+
+
+MS_NUMS = ['0', '1', '5', '-3', '100', '1.5', '-0.25', '0.0', '2730.15', '0x1F', '-0x10', '1e3', '', ' 7 ', 'x',
+           '1.', '.5', 'nan', 'inf', '1250', '1240', '1_0', '0.1', '3.3', '1e400', '12345678901234567890']
+MS_ALPHABET = list('#!?@getposauclnidwb:=,.0123456789x- \r\n\t_')
+
+
+def ms_frame(rng, d):
+    """one MSCU frame (header .. closer), mostly valid; d gives the current time"""
+    hdr = rng.choice('#!?@')
+    a = rng.choice([0, 1, 2, 3, 0, 1, 2, 3, 1, 1, 4, -1])
+    addr = str(a) if rng.random() < 0.93 else rng.choice(['1.0', '0x1', ' 2 ', '', 'a', '7', '0.0', '01'])
+    num = rng.choice(['0', '1', '7', '42', '-1', '00', ' 3', 'x', '', '1.0'] + ['0'] * 10)
+    k = rng.randrange(22)
+    closer = rng.choice(['\r\n'] * 6 + ['\n\r', ' \r\n', '\r\r\n'])
+    now = d.now()
+    axes = MS_AXES.get(a, 1)
+
+    def val():
+        r = rng.random()
+        if r < 0.5:
+            return str(rng.randrange(-200, 3000))
+        if r < 0.8:
+            return repr(rng.randrange(-20000, 20000) / rng.choice([8.0, 10.0, 100.0, 3.0]))
+        return rng.choice(MS_NUMS)
+    if k < 4:
+        body = '%s:%s=%s' % (rng.choice(['getpos', 'getpos', 'getstatus', 'getappstatus']), num, addr)
+        if rng.random() < 0.05:
+            body += ',1'
+    elif k < 10:
+        n = axes + 3 if rng.random() < 0.85 else rng.choice([axes + 2, axes + 4, 0, 1])
+        r = rng.random()
+        if r < 0.3:
+            ts = '0'
+        elif r < 0.6:
+            ts = str(now - rng.randrange(0, 10 ** 9))
+        elif r < 0.93:
+            ts = str(now + rng.randrange(1, 10 ** 9))
+        else:
+            ts = rng.choice(['0.0', '-5', '1', str(now), '%d.0' % now, '1.5', 'nan.', '0x10', str(10 ** 400)])
+        ps = [ts] + [val() for _ in range(max(0, n - 1))] if n else []
+        body = 'setpos:%s=%s' % (num, ','.join([addr] + ps))
+    elif k < 15:
+        c = rng.choice(['setup', 'stow', 'disable', 'clean', 'clean', 'stow', 'setsdatbitb16'])
+        ps = [val() for _ in range(rng.choice([0, 0, 0, 1, 2]))]
+        body = '%s:%s=%s' % (c, num, ','.join([addr] + ps))
+    elif k < 17:
+        ps = rng.choice([['1250', '0'], ['1240', '0'], ['1250.0', '0.0'], ['1', '2'], ['5', '1250', '0'], ['1250'],
+                         [], ['0x4E2', '-0.0'], ['1240', '1']])
+        body = 'getspar:%s=%s' % (num, ','.join([addr] + ps))
+    elif k < 19:
+        body = '%s:%s=%s' % (rng.choice(MS_OTHER + ['foo', '', 'GETPOS', 'getpos ', 'set pos']), num, addr)
+    else:
+        body = rng.choice(['getpos', 'getpos:0', 'getpos=1', 'getpos:0=1=2', 'a:b:c=1', ':=', '=', ':0=', 'getpos:0=',
+                           'getpos:0=,', 'getpos:0=1,', 'getpos:0=1,,', 'stow:0=1,a', 'getpos:=1', ''])
+    return hdr + body + closer
+
+
+def ms_history(rng, nframes, corrupt=0.12):
+    """build and run one MSCU history; returns the driver"""
+    d = Mscu(rng)
+    for _ in range(nframes):
+        r = rng.random()
+        if r < 0.25:
+            d.tick(rng.choice([0.125, 1.0, 3.5, 60.0, 0.5, 100.0, 0.0]))
+        elif r < 0.28:
+            d.set_nak(rng.random() < 0.6)
+        f = ms_frame(rng, d)
+        r = rng.random()
+        if r < corrupt:
+            f = mutate(rng, f, MS_ALPHABET)
+        elif r < corrupt + 0.04:
+            f = garbage(rng, rng.randrange(1, 10)) + rng.choice(['', '\r\n', '#', '\n\r'])
+        d.feed(f)
+    d.close()
+    return d
